@@ -1105,7 +1105,28 @@ def run(ctx):
         raise lib.ToolError("vacuity: classes %s change=%d internal=%d header kinds %s wallet kinds %s"
                             % (tally.classes, tally.changes, tally.internal, sorted(tally.hdr), wkinds))
 
-    ctx.traces = tally.n + len(scenarios) * len(THREADS) + sres["stats"].get("captured_runs", 0) + sres["stats"].get("reference_runs", 0)
+    # (5) height continuity at the ends of the height range: ScanBlock.tla's HeightErr is stated over the natural numbers
+    # (the block connects iff its height is the prior block's + 1); TLC's integers are 32-bit, so the rule is instantiated
+    # here for prior / block heights around 0 and around u32::MAX (empty blocks whose hash and tree sizes connect)
+    hp_path = ctx.path("heights.json")
+    lib.run_bin(os.path.join(bindir, "c05_replay"), ["heights", hp_path], timeout=300)
+    with open(hp_path) as f:
+        hpairs = json.load(f)
+    if len(hpairs) < 30 or not any(r["prior"] == 4294967295 for r in hpairs) or not any(r["prior"] == 0 and r["block"] == 0 for r in hpairs):
+        raise lib.ToolError("vacuity: boundary heights not exercised (%d pairs)" % len(hpairs))
+    for r in hpairs:
+        connects = r["block"] == r["prior"] + 1
+        got = r["got"]
+        ok = (got["k"] == "ok" and got.get("h") == r["block"]) if connects else (got["k"] == "err" and "BlockHeightDiscontinuity" in got.get("what", ""))
+        if not ok:
+            lib.violation(ctx, {"property": "C05", "kind": "boundary_height", "prior": r["prior"], "block": r["block"], "got": got},
+                          "scan_block on an empty block of height %d after a prior block of height %d (hash and tree sizes connect): "
+                          "the specification (HeightErr: connects iff height = prior + 1 over the naturals) expects %s, the code answered %s"
+                          % (r["block"], r["prior"], "acceptance" if connects else "BlockHeightDiscontinuity", json.dumps(got)[:200]))
+            break
+    ctx.extra["boundary_height_pairs"] = len(hpairs)
+
+    ctx.traces = tally.n + len(scenarios) * len(THREADS) + sres["stats"].get("captured_runs", 0) + sres["stats"].get("reference_runs", 0) + len(hpairs)
     ex = tally.ex_ok
     ctx.add_sample({"mode": "scan_block", "prior": ex["prior"], "block_txs": ex["block"]["txs"],
                     "predicted": {k: ex["exp"][k] for k in ("recv", "spent", "final", "wtx")}})
@@ -1164,6 +1185,17 @@ def replay(ctx, path):
         judge_header_panics(ctx, res, "block")
         if not res["mismatches"] and not ctx.violations:
             lib.log("replay: the block now agrees with the specification")
+    elif rep["kind"] == "boundary_height":
+        hp_path = ctx.path("heights.json")
+        lib.run_bin(os.path.join(bindir, "c05_replay"), ["heights", hp_path], timeout=300)
+        with open(hp_path) as f:
+            got = next(r["got"] for r in json.load(f) if r["prior"] == rep["prior"] and r["block"] == rep["block"])
+        connects = rep["block"] == rep["prior"] + 1
+        ok = got["k"] == "ok" if connects else (got["k"] == "err" and "BlockHeightDiscontinuity" in got.get("what", ""))
+        if ok:
+            lib.log("replay: the pair now agrees with the specification")
+        else:
+            lib.violation(ctx, rep, "replayed boundary heights still disagree: %s" % json.dumps(got)[:200])
     elif rep["kind"] == "sched":
         res = run_sched_mode(ctx, bindir, rep["cases"], "replay")
         res["incomplete"] = False
